@@ -25,7 +25,7 @@ def seeds():
         extra = m.get("checks_after_strengthening", {})
         caught = [k for k, v in checks.items() if v.get("fired")]
         missed = [k for k, v in checks.items() if not v.get("fired")]
-        later = [k for k, v in extra.items() if v.get("fired") and k not in caught]
+        later = [k for k, v in extra.items() if v.get("fired") and k.split(" ")[0] not in caught or (v.get("fired") and "thorough" in k)]
         summ = (m.get("summary") or "").replace("\n", " ").replace("|", "/")
         needs = (m.get("needs_to_manifest") or "").replace("\n", " ").replace("|", "/")
         rows.append((os.path.basename(d), m.get("property", "?"), summ[:150], needs[:150],
